@@ -688,7 +688,7 @@ def strat_tape(fmt='cas', maxfiles=4, maxlen=MAXLEN):
     return st.randoms(use_true_random=False).map(lambda rng: rand_tape(rng, fmt, maxfiles, maxlen))
 
 
-RAND_COUNTS = {'cas': {'quick': 90, 'thorough': 6000}, 'wav': {'quick': 4, 'thorough': 150}}
+RAND_COUNTS = {'cas': {'quick': 90, 'thorough': 6000}, 'wav': {'quick': 12, 'thorough': 150}}
 
 
 def _gen_rand(fmt, maxfiles, maxlen):
@@ -736,12 +736,13 @@ def gen_edges(shard, nshards, tier, seed):
 
 def units(tier):
     return [
-        Unit('edges-cas', 'enum', shards=16, gen=gen_edges),
+        Unit('edges-cas', 'enum', shards={'quick': 8, 'thorough': 16}, gen=gen_edges),
         Unit('tapes-cas-rand', 'enum', shards=16, gen=_gen_rand('cas', 4, MAXLEN)),
-        Unit('tapes-wav-rand', 'enum', shards=16, gen=_gen_rand('wav', 3, 530)),
-        Unit('tapes-cas', 'hyp', shards=16, examples={'quick': 6, 'thorough': 300},
+        Unit('tapes-wav-rand', 'enum', shards={'quick': 4, 'thorough': 16},
+             gen=_gen_rand('wav', 3, 530)),
+        Unit('tapes-cas', 'hyp', shards=4, examples={'quick': 25, 'thorough': 1200},
              strategy=lambda: strat_tape('cas')),
-        Unit('tapes-wav', 'hyp', shards=4, examples={'quick': 2, 'thorough': 40},
+        Unit('tapes-wav', 'hyp', shards=2, examples={'quick': 4, 'thorough': 80},
              strategy=lambda: strat_tape('wav', maxfiles=3, maxlen=530)),
     ]
 
